@@ -311,6 +311,46 @@ Proof.
 Qed.
 Print Assumptions C16_correlation_proportional.
 
+(* the mode logic of spatial_norm / fourier_norm (executed for every mode string with and without reference), the spatial aggregator and the
+   (mode, inner exponent, outer exponent) tables of the named metrics are re-translated from the source on every run
+   (harness/translate/metrics.py -> Gen/MetricsGen.v; H1_*, mean_metric and correlation are compared with their expected text).  They are the
+   model's: the combination per channel and the rejected calls for every mode; the aggregator with inner exponent 2 for ANY real power
+   function with |x|^2 = x x (the outer power is the model's `root`); MAE / MSE / RMSE-type metrics use the exponents (1, 1), (2, 1), (2, 1/2) *)
+From EXV Require Import Gen.MetricsGen Tie.MetricsTie.
+Ltac splits := repeat match goal with |- _ /\ _ => split end.
+Theorem C16_code_norms_are_model_norms : forall (F : FieldT) (mode : Z) (d s r : F) (ref_none : bool),
+  gen_combine_spatial F mode d s r = combine_spatial F mode d s r
+  /\ gen_combine_fourier F mode d s r = combine_fourier F mode d s r
+  /\ gen_spatial_norm_raises ref_none mode = spatial_norm_raises ref_none mode
+  /\ gen_fourier_norm_raises ref_none mode = fourier_norm_raises ref_none mode
+  /\ (forall (powr : F -> F -> F) (absf root : F -> F) (outer : F) (D : nat) (N : Z) (L : F) (u : list F),
+        (forall x, powr (absf x) (fz 2) = omul x x) -> (forall y, powr y outer = root y) ->
+        gen_spatial_aggregator F powr absf D N L (fz 2) outer u = spatial_agg F root D N L u)
+  /\ (nth 0 gen_table_spatial (0%Z, 0%Q, 0%Q) = (0%Z, (1 # 1)%Q, (1 # 1)%Q) /\ nth 3 gen_table_spatial (0%Z, 0%Q, 0%Q) = (0%Z, (2 # 1)%Q, (1 # 1)%Q)
+      /\ nth 6 gen_table_spatial (0%Z, 0%Q, 0%Q) = (0%Z, (2 # 1)%Q, (1 # 2)%Q) /\ nth 4 gen_table_spatial (0%Z, 0%Q, 0%Q) = (1%Z, (2 # 1)%Q, (1 # 1)%Q)
+      /\ nth 5 gen_table_spatial (0%Z, 0%Q, 0%Q) = (2%Z, (2 # 1)%Q, (1 # 1)%Q) /\ length gen_table_spatial = 9%nat)
+  /\ (nth 2 gen_table_fourier (0%Z, 0%Q, 0%Q) = (0%Z, (2 # 1)%Q, (1 # 1)%Q) /\ nth 3 gen_table_fourier (0%Z, 0%Q, 0%Q) = (1%Z, (2 # 1)%Q, (1 # 1)%Q)
+      /\ length gen_table_fourier = 6%nat /\ gen_H1_derivative_orders = [None; Some 1%Z]).
+Proof.
+  intros F mode d s r ref_none. destruct tables_tie as (T1 & T2 & T3). splits.
+  - apply combine_spatial_tie.
+  - apply combine_fourier_tie.
+  - apply spatial_raises_tie.
+  - apply fourier_raises_tie.
+  - intros powr absf root outer D N L u H2 Hr. apply spatial_aggregator_tie; assumption.
+  - rewrite T1; reflexivity.
+  - rewrite T1; reflexivity.
+  - rewrite T1; reflexivity.
+  - rewrite T1; reflexivity.
+  - rewrite T1; reflexivity.
+  - rewrite T1; reflexivity.
+  - rewrite T2; reflexivity.
+  - rewrite T2; reflexivity.
+  - rewrite T2; reflexivity.
+  - exact T3.
+Qed.
+Print Assumptions C16_code_norms_are_model_norms.
+
 (* ------------------------------------------------------------------------------------------------ *)
 (* non-vacuity of the hypotheses *)
 Example C16_ex_ordered_Qc : OrderedField QcField Qcle.
